@@ -38,12 +38,14 @@ type reqSpec struct {
 	FetchMut bool   // the fetch itself is a mutation-typed fetch
 	Cancel   bool   // a canceller actor cancels this client's context at some point
 	NoDedup  bool   // DisableInboundRequestDeduplication (drives the subgraph-level single flight)
+	BadWrite bool   // this client's response writer fails (broken pipe)
 }
 
 type scenario struct {
 	Name     string
 	Reqs     []reqSpec
 	FailKeys map[string]bool // fetch inputs for which the data source always fails
+	Status   map[string]int  // fetch inputs answered with this HTTP status and an unusable body
 }
 
 type hdrBuilder struct{ h string }
@@ -64,8 +66,9 @@ func (b hdrBuilder) HashAll() uint64 {
 // fakeDS is the subgraph: the answer is a function of (input, forwarded header),
 // so a response shared across different keys is visible in the bytes.
 type fakeDS struct {
-	s     *sched.Sched
-	fail  map[string]bool
+	s      *sched.Sched
+	status map[string]int
+	fail   map[string]bool
 	mu    sync.Mutex
 	loads map[string]int
 	log   []string
@@ -95,6 +98,13 @@ func (d *fakeDS) Load(ctx context.Context, headers http.Header, input []byte) ([
 		return nil, errors.New("upstream unavailable for " + in)
 	}
 	// give the HTTP response context a status code like the real client does
+	if st, ok := d.status[in]; ok {
+		if rc := httpclient.GetResponseContext(ctx); rc != nil {
+			rc.StatusCode = st
+			rc.Response = &http.Response{StatusCode: st, Header: http.Header{"X-Upstream": []string{"u1"}}}
+		}
+		return []byte("upstream broke"), nil
+	}
 	if rc := httpclient.GetResponseContext(ctx); rc != nil {
 		rc.StatusCode = 200
 	}
@@ -103,6 +113,19 @@ func (d *fakeDS) Load(ctx context.Context, headers http.Header, input []byte) ([
 
 func (d *fakeDS) LoadWithFiles(ctx context.Context, headers http.Header, input []byte, files []*httpclient.FileUpload) ([]byte, error) {
 	return d.Load(ctx, headers, input)
+}
+
+// clientWriter is the client's response writer; a broken one fails every write.
+type clientWriter struct {
+	buf    bytes.Buffer
+	broken bool
+}
+
+func (w *clientWriter) Write(p []byte) (int, error) {
+	if w.broken {
+		return 0, errors.New("write: broken pipe")
+	}
+	return w.buf.Write(p)
 }
 
 func planFor(q reqSpec, ds resolve.DataSource) *resolve.GraphQLResponse {
@@ -148,18 +171,22 @@ type outcome struct {
 
 // solo computes the bytes a request gets on its own (fresh resolver, no
 // scheduler): the reference of the property.
-func solo(q reqSpec, fail map[string]bool) outcome {
+func solo(q reqSpec, sc scenario) outcome {
 	rctx, cancel := context.WithCancel(context.Background())
 	defer cancel()
-	r := resolve.New(rctx, resolve.ResolverOptions{MaxConcurrency: 8})
-	ds := &fakeDS{fail: fail, loads: map[string]int{}}
-	var buf bytes.Buffer
-	_, err := r.ArenaResolveGraphQLResponse(newCtx(context.Background(), q), planFor(q, ds), &buf)
-	o := outcome{returned: true, bytes: buf.String()}
+	r := resolve.New(rctx, resolverOptions())
+	ds := &fakeDS{fail: sc.FailKeys, status: sc.Status, loads: map[string]int{}}
+	buf := &clientWriter{broken: q.BadWrite}
+	_, err := r.ArenaResolveGraphQLResponse(newCtx(context.Background(), q), planFor(q, ds), buf)
+	o := outcome{returned: true, bytes: buf.buf.String()}
 	if err != nil {
 		o.err = err.Error()
 	}
 	return o
+}
+
+func resolverOptions() resolve.ResolverOptions {
+	return resolve.ResolverOptions{MaxConcurrency: 8, PropagateSubgraphStatusCodes: true, PropagateSubgraphErrors: true}
 }
 
 func scenarios(thorough bool) []scenario {
@@ -175,6 +202,8 @@ func scenarios(thorough bool) []scenario {
 		{Name: "L2-same-input-different-headers", Reqs: []reqSpec{{Name: "A", Op: "q1", Vars: "v1", Hdr: "h1", SubFetch: "F1", NoDedup: true}, {Name: "B", Op: "q2", Vars: "v1", Hdr: "h2", SubFetch: "F1", NoDedup: true}}},
 		{Name: "L3-query-fetch-and-mutation-fetch", Reqs: []reqSpec{{Name: "A", Op: "m1", Vars: "v1", Hdr: "h1", SubFetch: "F1", Mutation: true}, {Name: "B", Op: "m2", Vars: "v1", Hdr: "h1", SubFetch: "F1", Mutation: true, FetchMut: true}, {Name: "C", Op: "q3", Vars: "v1", Hdr: "h1", SubFetch: "F1", NoDedup: true}}},
 		{Name: "L4-subgraph-leader-fails", Reqs: []reqSpec{{Name: "A", Op: "q1", Vars: "v1", Hdr: "h1", SubFetch: "F1", NoDedup: true}, {Name: "B", Op: "q2", Vars: "v1", Hdr: "h1", SubFetch: "F1", NoDedup: true}}, FailKeys: map[string]bool{"F1": true}},
+		{Name: "I7-one-client-writer-broken", Reqs: []reqSpec{{Name: "A", Op: "q1", Vars: "v1", Hdr: "h1", BadWrite: true}, a("B", "q1", "v1", "h1")}},
+		{Name: "L7-subgraph-answers-503", Reqs: []reqSpec{{Name: "A", Op: "q1", Vars: "v1", Hdr: "h1", SubFetch: "F1", NoDedup: true}, {Name: "B", Op: "q2", Vars: "v1", Hdr: "h1", SubFetch: "F1", NoDedup: true}}, Status: map[string]int{"F1": 503}},
 		{Name: "L5-subgraph-participant-cancels", Reqs: []reqSpec{{Name: "A", Op: "q1", Vars: "v1", Hdr: "h1", SubFetch: "F1", NoDedup: true, Cancel: true}, {Name: "B", Op: "q2", Vars: "v1", Hdr: "h1", SubFetch: "F1", NoDedup: true}}},
 	}
 	if thorough {
@@ -201,8 +230,8 @@ func buildScenario(sc scenario, solos map[string]outcome) *sched.Scenario {
 		Name: sc.Name,
 		Body: func(s *sched.Sched) {
 			rctx, cancel := context.WithCancel(context.Background())
-			r := resolve.New(rctx, resolve.ResolverOptions{MaxConcurrency: 8})
-			in := &instance{cancelRoot: cancel, ds: &fakeDS{s: s, fail: sc.FailKeys, loads: map[string]int{}}, out: map[string]*outcome{}, cancelled: map[string]bool{}}
+			r := resolve.New(rctx, resolverOptions())
+			in := &instance{cancelRoot: cancel, ds: &fakeDS{s: s, fail: sc.FailKeys, status: sc.Status, loads: map[string]int{}}, out: map[string]*outcome{}, cancelled: map[string]bool{}}
 			inst = in
 			for _, q := range sc.Reqs {
 				q := q
@@ -216,11 +245,11 @@ func buildScenario(sc scenario, solos map[string]outcome) *sched.Scenario {
 							panic(p)
 						}
 					}()
-					var buf bytes.Buffer
-					info, err := r.ArenaResolveGraphQLResponse(newCtx(cctx, q), planFor(q, in.ds), &buf)
+					buf := &clientWriter{broken: q.BadWrite}
+					info, err := r.ArenaResolveGraphQLResponse(newCtx(cctx, q), planFor(q, in.ds), buf)
 					in.mu.Lock()
 					o.returned = true
-					o.bytes = buf.String()
+					o.bytes = buf.buf.String()
 					if err != nil {
 						o.err = err.Error()
 					}
@@ -373,7 +402,7 @@ func TestCheck(t *testing.T) {
 		for si, sc := range scenarios(run.Thorough()) {
 			solos := map[string]outcome{}
 			for _, q := range sc.Reqs {
-				solos[q.Name] = solo(q, sc.FailKeys)
+				solos[q.Name] = solo(q, sc)
 			}
 			synctest.Wait()
 			b := bound
